@@ -160,7 +160,14 @@ def run_full(spec):
     kind_ = int(rng.integers(0, 5))
     wrap = [list, tuple, set, frozenset, dict.fromkeys][kind_]
     out["sets"]["list_containers"] = [["list", "tuple", "set", "frozenset", "dict"][kind_]]
-    c2.update(lhs_called_contests=wrap(lhs), rhs_called_contests=wrap(rhs), stop_model_call=wrap(stop))
+    def rep_(lst):
+        # calls collected from two desks: the same contest may be listed twice in one list (list / tuple only)
+        if kind_ <= 1 and lst and rng.random() < 0.4:
+            out["counters"]["lists_with_repeated_entry"] = 1
+            return list(lst) + [lst[int(rng.integers(0, len(lst)))]]
+        return lst
+
+    c2.update(lhs_called_contests=wrap(rep_(lhs)), rhs_called_contests=wrap(rep_(rhs)), stop_model_call=wrap(rep_(stop)))
     res1, exc = harness.run_estimates(el, feed, c2)
     out["counters"]["full_runs"] = 1
     if exc is not None:
